@@ -4,7 +4,7 @@
    changes in a way that is not behaviour-preserving (a different comparison, a moved cursor
    update, cursor + size re-introduced, end() reused as the bounds test ...). *)
 From Common Require Import Prelude.
-From C15 Require Import Model Proofs FactsModel.
+From C15 Require Import Model Proofs ProofsCodec ProofsInto FactsModel.
 From C15.gen Require Import Facts.
 Local Open Scope Z_scope.
 
@@ -83,3 +83,20 @@ Proof. apply prefix_ok_spec. vm_compute. reflexivity. Qed.
    AbstractArray overload for each of the four derived static types *)
 Lemma src_array_overload : gen_guard = true /\ overload_ok gen_overload = true.
 Proof. split; vm_compute; reflexivity. Qed.
+
+(* operator>>(ReadStream&, std::vector<T>&) as extracted: resize(sz), then read into the elements
+   rh[i] - so it is get_into, hence (get_into_eq) independent of what the destination held and
+   equal to the specified reader.  An append-based rewrite (reserve + push_back) breaks this. *)
+Lemma src_vector_read_is_model sh' old r :
+  exec_vecread gen_vec_read sh' 0 (old_elems old) r = get (SVec sh') r.
+Proof.
+  replace gen_vec_read with exp_vec_read by (vm_compute; reflexivity).
+  rewrite exp_vec_read_ok. apply get_into_eq.
+Qed.
+
+Lemma src_string_read_is_model old r :
+  exec_strread gen_str_read 0 (old_bytes old) r = get SStr r.
+Proof.
+  replace gen_str_read with exp_str_read by (vm_compute; reflexivity).
+  rewrite exp_str_read_ok. apply (get_into_eq SStr).
+Qed.
